@@ -395,6 +395,13 @@ def gen_history(seed):
         elif c == "reset":
             ops.append({"op": "reset"})
             nrx = 0
+            if rng.chance(0.5):
+                # while no reaction is in: the data files of one system are replaced by a new
+                # calculation (same arrays shapes, so the same file size; the copy tool keeps
+                # the time stamps) and the system is stored again
+                sid_ = rng.choice(ids)
+                ops.append({"op": "rewrite", "id": sid_, "rseed": rng.below(10**6)})
+                ops.append({"op": "store", "ids": [sid_], "get_correlation": True})
         elif c == "lik":
             ops.append({"op": "lik", "x": None if rng.chance(0.5) else [rng.uniform(0.5, 1.5), rng.uniform(0.3, 1.2)], "sigma_min": rng.choice([0.25, 0.5])})
         else:
@@ -790,9 +797,12 @@ def exec_history(hist, workdir, collect=None, light=False):
                       X = np.ascontiguousarray(X[..., idx])
                   else:
                       X = np.ascontiguousarray(X[..., 8 : 8 + 4 * op["npick"]])
-                  if any(k["mode"] == "POL" for k in cfg["kernels"]) or True:
-                      # control lists must have one spin layout: use the first channel only
+                  if not (derive("ctrl-spinful", op["pseed"], sid) % 2):
+                      # half of the systems contribute the first channel only, the others both
+                      # (spin-polarised control points: alpha and beta feature vectors differ)
                       X = X[:1]
+                  elif X.shape[0] == 2:
+                      stats["spin_polarised_control_sets"] += 1
                   X0T_list.append(X)
               call("set_control_points", gp.set_control_points, X0T_list, reduce=op["reduce"])
               ref.invalidate()
@@ -860,6 +870,21 @@ def exec_history(hist, workdir, collect=None, light=False):
                       call("add_reactions", gp.add_reactions, [rxn_to_pkg(r) for r in op["rxns"]])
                   rx_in += [r for r in op["rxns"]]
                   stats["reactions_added"] += len(op["rxns"])
+          elif c == "rewrite":
+              if rx_in:
+                  continue  # (only generated right after a reset; a minimised history may differ)
+              sid = op["id"]
+              paths = [os.path.join(v_, sid + ".hdf5") for v_ in ddir.values() if v_]
+              stamps = {p_: os.stat(p_) for p_ in paths}
+              data[sid] = gen_system(Rng(derive("gphist-rewrite", cfg["dseed"], sid, op["rseed"])), cfg, sys_ids(cfg).index(sid))
+              write_system(ddir, sid, data[sid], cfg)
+              same = all(os.stat(p_).st_size == stamps[p_].st_size for p_ in paths)
+              for p_ in paths:
+                  os.utime(p_, ns=(stamps[p_].st_atime_ns, stamps[p_].st_mtime_ns))
+              ref.invalidate()
+              stored.discard(sid)
+              stats["data_files_replaced_in_place"] += 1
+              stats["data_files_replaced_with_same_size_and_time_stamp"] += int(same)
           elif c == "reset":
               _quiet(gp.reset_reactions)
               rx_in = []
